@@ -2,7 +2,7 @@
 import re
 
 from . import lib_c16 as L
-from .lib import callers, closure_of_operand
+from .lib import callers, closure_of_operand, result_split
 from .lib_c16 import (SPAWN, after_await, await_payloads, awaits, give_up_sites, result_switches_of, slice_has_call_at,
                       spawned_coroutine, upvar_index_where, variant_edge, variant_flow)
 
@@ -370,6 +370,28 @@ def r5_disconnect_record_only_when_dropped(ctx):
               (w, aw["poll_bb"]))
 
 
+def r7_orphaned_result_is_recorded(ctx):
+    """Added after adversary change C16-L (`let _ = tx.send(result);` replaced the block that logged a result nobody was waiting for: a
+    detached handler that outlived its client then left `cancelled (client disconnected)` as the only record of a request that in fact
+    ran to completion, and its error, if any, was lost): a started handler ends exactly one way and that end is recorded -- when the
+    result cannot be handed to the waiting request future it is logged on every path."""
+    R = ctx.rule("C16.R7", "in the detached task the result of the handler is sent to the request future, and the failure edge of that send (the future was cancelled) passes a log "
+                 "record on every path: the completion of an orphaned handler is never dropped silently", floor=2)
+    ds = ctx.dsn
+    top = ctx.need_fn(ds, R, r"^server::http_request_handle$")
+    hb = ds.body_of(top)
+    tasks = [g for g in ds.descendants(hb) if g.raw.get("coroutine") and g.live_calls(r"oneshot::Sender::<T>::send$")]
+    ctx.check(R, "one-detached-task-sends-the-result", len(tasks) == 1, "spawned tasks under http_request_handle that send on the oneshot channel: %d" % len(tasks), hb)
+    for g in tasks:
+        for bb, t in g.live_calls(r"oneshot::Sender::<T>::send$"):
+            sp = result_split(g, t["dest"]["l"]) if not t["dest"]["p"] else None
+            # a slog macro is `if level <= max_level { logger.log(record) }`: its entry is the level test
+            logs = [b for b, _ in g.live_calls(r"^slog::Level::as_usize$|^slog::Logger::<D>::log$|slog::Logger::log$")]
+            ok = sp is not None and sp["err"] is not None and sp["err"] != sp["ok"] and bool(logs) and g.must_pass(logs, start=sp["err"])
+            ctx.check(R, "send-failure-is-logged", ok, "the Err edge of tx.send(result) %s" % (
+                "passes a log record on every path" if ok else "is not examined (the result of send is discarded)" if sp is None else "can reach the end of the task without a log record"), (g, bb))
+
+
 def r6_configured_mode_reaches_the_dispatch(ctx):
     """Added after adversary change C16-F: the legacy constructor rebuilt the configuration from "the knobs it always exposed" with
     `..Default::default()`, silently replacing a configured CancelOnDisconnect by the default Detached."""
@@ -430,9 +452,35 @@ def r6_configured_mode_reaches_the_dispatch(ctx):
             shown.append(repr(p))
             okb = okb and p is not None and p.kind() == "param" and p.path == ["default_handler_task_mode"]
         ctx.check(R, "serialised-config-carries-the-mode", okb, "From<ConfigDropshot> for DeserializedConfigDropshot: default_handler_task_mode = %s" % (shown or "no aggregate"), back)
+    # Added after adversary change C16-K (`#[derive(Default)]` with `#[default]` on the first variant, CancelOnDisconnect, and
+    # ConfigDropshot::default() switched to `Default::default()`: every server that does not name a mode silently changed from
+    # running handlers to completion to cancelling them on disconnect): the mode of a configuration that names none is Detached
+    dflt = ds.one(r"^<config::ConfigDropshot as std::default::Default>::default$")
+    if dflt is None:
+        ctx.lost(R, "Default for ConfigDropshot")
+    else:
+        variants = set()
+        for bb, i, st in dflt.aggregates(r"^config::ConfigDropshot$"):
+            names = st["rv"].get("fields") or []
+            if "default_handler_task_mode" not in names or bb not in dflt.reachable(0):
+                continue
+            sl = dflt.slice(st["rv"]["ops"][names.index("default_handler_task_mode")])
+            for a in sl.atoms:
+                if a[0] == "agg" and a[1] == "config::HandlerTaskMode":
+                    variants.add(a[2])
+            for c, cb, ct in sl.callees:
+                # `Default::default()` of the mode type: what that impl returns
+                tgt = ds.F.get(ct.get("resolved") or "") or ds.one(r"^<config::HandlerTaskMode as std::default::Default>::default$")
+                if tgt is not None and re.search(r"HandlerTaskMode", tgt.id):
+                    for a in tgt.slice({"l": 0, "p": []}).atoms:
+                        if a[0] == "agg" and a[1] == "config::HandlerTaskMode":
+                            variants.add(a[2])
+                else:
+                    variants.add("<%s>" % c)
+        ctx.check(R, "unnamed-mode-is-detached", variants == {"Detached"}, "ConfigDropshot::default().default_handler_task_mode can be: %s (documented default: Detached)" % (sorted(variants) or "unknown"), dflt)
 
 
-RULES = [("C16.R6", r6_configured_mode_reaches_the_dispatch), ("C16.R5", r5_disconnect_record_only_when_dropped), ("C16.R4", r4_connection_config_shared), ("C16.R1", r1_mode_table), ("C16.R2", r2_exactly_once), ("C16.R3", r3_panic_propagation)]
+RULES = [("C16.R7", r7_orphaned_result_is_recorded), ("C16.R6", r6_configured_mode_reaches_the_dispatch), ("C16.R5", r5_disconnect_record_only_when_dropped), ("C16.R4", r4_connection_config_shared), ("C16.R1", r1_mode_table), ("C16.R2", r2_exactly_once), ("C16.R3", r3_panic_propagation)]
 
 _S = "dropshot/src/server.rs"
 SELFTEST = [
